@@ -40,7 +40,9 @@ ALL_CHARSUBS = ["``", "''", '"`', "\"'", "`", "'", "---", "--"]
 # hostile leaves (decoded text the reader must see)
 HOSTILE = ["<", ">", "&", '"', "'", "<b>", "</p>", "<script>alert(1)</script>", "&amp;", "&lt;",
            "&#60;", "<!--", "]]>", "\u00e9 \u00fc \u4e2d", "a<b", 'say "x" & <i>y</i>', "x > y", "AT&T",
-           "-->", "<a href=\"u\">", "1 < 2", "&nbsp;", "caf\u00e9", "'q'"]
+           "-->", "<a href=\"u\">", "1 < 2", "&nbsp;", "caf\u00e9", "'q'",
+           # characters beyond the basic multilingual plane (escape-high-chars must cover them too)
+           "\U0001d538 < \U0001f600", "\U0001f600"]
 # shapes the image post-processor's placeholder regex can match
 MAGIC = ["&x-width;", "&lt-width;", "&x-depth;&pt;", "&a-height;"]
 PLAIN = ["plain", "word"]
@@ -51,7 +53,7 @@ MAGIC_RE = re.compile(r"&\S+-(width|height|depth);")
 K_LAYOUT_SINKS = ["unescaped-attr:HTML5:link@title", "unescaped-attr:HTML5:a@title"]
 K_INDEX_SINK = "unescaped-attr:HTML5:a.index-page@title"
 K_ENCODE = "escape-high-raise:non-utf8-output-encoding"
-ATTR_SAFE = ["'", "\u00e9 \u00fc \u4e2d", "caf\u00e9", "'q'", "plain", "word", "x y", "]]"]
+ATTR_SAFE = ["'", "\u00e9 \u00fc \u4e2d", "caf\u00e9", "'q'", "plain", "word", "x y", "]]", "\U0001f600"]
 
 COMBOS = [("HTML5", "default"), ("XHTML", "default"), ("HTML5", "minimal")]
 
